@@ -115,6 +115,21 @@ Proof. intros. destruct (src_ta_tail_eq m raw al tl) as (A & B & C). destruct (s
   exact (conj A (conj B (conj C (conj D E)))). Qed.
 Print Assumptions C04_src_appender_end_of_term.
 
+(* ExclusiveTermAppender: the same lengths, the resulting offset on the publication's own cursor (i32), the end-of-term test
+   `term length < resulting offset` of eta_claim and the eta_append functions, and the padding *)
+Theorem C04_src_excl_appender : forall m len mpl term_offset required resulting tl, ~ (len = - two31 /\ mpl = -1) ->
+  (fl <- src_xta_frame_length m len ;; al <- src_xta_aligned_length m fl ;; r <- src_xta_resulting_offset m term_offset al ;;
+   Ok (fl, al, r)) = ('(fl, al) <- unfrag_lengths m len ;; r <- add32 m term_offset al ;; Ok (fl, al, r)) /\
+  src_xta_required_length m len mpl = frag_required m len mpl /\
+  src_xta_frag_resulting_offset m term_offset required = add32 m term_offset required /\
+  src_xta_trips m resulting tl = Ok (tl <? resulting) /\
+  src_xta_pads m term_offset tl = Ok (term_offset <? tl) /\
+  src_xta_padding_length m tl term_offset = sub32 m tl term_offset.
+Proof. intros m len mpl term_offset required resulting tl H.
+  exact (conj (src_xta_unfrag_eq m len term_offset) (conj (src_xta_required_length_eq m len mpl H)
+        (src_xta_decisions_eq m term_offset required resulting tl))). Qed.
+Print Assumptions C04_src_excl_appender.
+
 Example C04_src_example :
   src_pub_new_position Debug (2 ^ 47) 0 0 7 64 128 = Ok (ROk 192) /\
   src_pub_new_position Debug (2 ^ 47) 3 65504 10 (3 * 65536 + 65504) (-1) =
